@@ -33,7 +33,7 @@ ASSUMPTIONS = [
 ]
 REQUIRED_MONITORS = ["instance-reuse", "roundtrip", "layout", "layout-to_dict", "json-vs-yaml", "foreign", "save-pure"]
 
-ENTRIES = ["string", "save-load", "write_file", "dict-strict", "dict-lenient"]
+ENTRIES = ["string", "save-load", "save-load-no-extension", "write_file", "dict-strict", "dict-lenient"]
 
 
 def layout_problems(parsed):
@@ -84,6 +84,28 @@ def write_and_read(doc, fmt, entry, sdir):
             text = ODMLWriter(fmt).to_string(doc)
         elif entry == "save-load":
             odml.save(doc, path, fmt)
+        elif entry == "save-load-no-extension":
+            # a target named without extension, in a directory other than the current one: the documented
+            # "<name>.<format>" is written there
+            d_ = os.path.join(sdir, "c02dir")
+            os.makedirs(d_, exist_ok=True)
+            cwd_ = os.path.join(sdir, "c02cwd")          # the current directory of the call: a scratch directory of its own
+            os.makedirs(cwd_, exist_ok=True)
+            for stale in [os.path.join(d_, f_) for f_ in os.listdir(d_)] + [os.path.join(cwd_, f_) for f_ in os.listdir(cwd_)]:
+                os.remove(stale)
+            was_ = os.getcwd()
+            os.chdir(cwd_)
+            try:
+                odml.save(doc, os.path.join(d_, "metadata"), fmt)
+            finally:
+                os.chdir(was_)
+            # (the format name is appended as it was given: metadata.JSON for backend "JSON")
+            hits = [f_ for f_ in os.listdir(d_) if f_.lower() == "metadata." + ext]
+            path = os.path.join(d_, hits[0]) if hits else os.path.join(d_, "metadata." + ext)
+            if not os.path.exists(path):
+                elsewhere = [os.path.join(d_, f_) for f_ in os.listdir(d_)] + [os.path.join(cwd_, f_) for f_ in os.listdir(cwd_)]
+                return ("write-raised", FileNotFoundError("save(<dir>/metadata, %s) did not write <dir>/metadata.%s (found instead: %s)" % (
+                    fmt, ext, [("<cwd>/" if e_.startswith(cwd_) else "<dir>/") + os.path.basename(e_) for e_ in elsewhere])))
         elif entry == "write_file":
             ODMLWriter(fmt).write_file(doc, path)
         else:
@@ -93,7 +115,7 @@ def write_and_read(doc, fmt, entry, sdir):
     try:
         if entry == "string":
             loaded = ODMLReader(fmt, show_warnings=False).from_string(text)
-        elif entry == "save-load":
+        elif entry in ("save-load", "save-load-no-extension"):
             with io.open(path) as f:
                 text = f.read()
             loaded = odml.load(path, fmt, show_warnings=False)
